@@ -604,6 +604,12 @@ func c10FlowOn(c *Ctx, where string) {
 							cu := "/livesim2/" + chunked + stl + a.AssetPath + "/" + media + sq
 							er, cr := drmGet(eu), drmGet(cu)
 							c.Count("media-pairs")
+							if strings.Contains(m.name, "noiv") && cr.code == 200 && er.code >= 400 && er.panic == "" {
+								// a key without explicitIV: livesim2 refuses the media segments ("iv must be 16 bytes"); what it
+								// does serve must decrypt with the served init like any other
+								c.Count("media-refused-no-explicit-iv")
+								continue
+							}
 							if er.code != 200 || cr.code != 200 {
 								viol("drm-media", fmt.Sprintf("%s %s k=%d: encrypted %d %s, clear %d", m.name, rp.ID, k, er.code, er.panic, cr.code), eu, nil)
 								continue
@@ -763,7 +769,18 @@ func buildDrmConfig() string {
 				np["name"] = "verif-iv8-cbcs"
 				np["desc"] = "one-key cbcs with an 8-byte explicitIV (generated by /verif/harness)"
 				np["cpixFile"] = "cpix_iv8.xml"
-				cfg["packages"] = append(pkgs, np)
+				pkgs = append(pkgs, np)
+				// ... and one whose key has no explicitIV at all (the attribute is optional in CPIX)
+				bn := bytes.Replace(b, append([]byte(" "), m[0]...), nil, -1)
+				must(os.WriteFile(filepath.Join(dst, "cpix_noiv.xml"), bn, 0o644))
+				nn := map[string]any{}
+				for k, v := range first {
+					nn[k] = v
+				}
+				nn["name"] = "verif-noiv-cbcs"
+				nn["desc"] = "one-key cbcs without explicitIV (generated by /verif/harness)"
+				nn["cpixFile"] = "cpix_noiv.xml"
+				cfg["packages"] = append(pkgs, nn)
 			}
 		}
 	}
